@@ -133,6 +133,9 @@ Consume(cons, n, ks) ==
       [] cons = "rfold"    -> FoldL(1, ReverseSeq(ks))
       [] cons = "next"     -> IF ks = <<>> THEN None ELSE Some(ks[1])
       [] cons = "nth"      -> IF n < Len(ks) THEN Some(ks[n + 1]) ELSE None
+      \* the same consumer with the arguments 0 and 4 (the descriptor's n is the argument of plain "nth")
+      [] cons = "nth0"     -> IF ks = <<>> THEN None ELSE Some(ks[1])
+      [] cons = "nth4"     -> IF 4 < Len(ks) THEN Some(ks[5]) ELSE None
       [] cons = "position" -> FirstIdx(ks, Even)
       [] cons = "rposition" -> FirstIdx(ReverseSeq(ks), Even)        \* documented: counts from the back
 
